@@ -4,7 +4,7 @@
 // terminal_is_recognised).  One instantiation per format because the hook structs are private.
 
 use super::*;
-use crate::verif_common::{label_round_trip, instr_round_trip, instr_size_field, terminal_is_recognised, Stored, SizeField};
+use crate::verif_common::{instr_time_is_stored, label_round_trip, instr_round_trip, instr_size_field, terminal_is_recognised, Stored, SizeField};
 
 macro_rules! c03 {
     ($name:ident, $unwind:literal, $body:expr) => {
@@ -63,6 +63,13 @@ c03!(c03_tl08_terminal, 8, terminal_is_recognised(&TimelineFormat08, false, 0));
 
 //@ C03 c03_label_ecl06 quick default ECL TH06-095 label encoding (signed offset relative to the jumping instruction): decode_label(cur, encode_label(cur, dest)) == dest for every pair of offsets below 2^31, forwards and backwards
 c03!(c03_label_ecl06, 2, label_round_trip(&OldeEclHooks { game: Game::Th07 }, 1));
+
+//@ C13 c13_ecl06_time_stored quick default ECL (TH06-095): if write_instr accepts an instruction, the time read back from the written bytes is the requested time, for every i32 time (a time that does not fit the field must be rejected, never stored differently)
+c03!(c13_ecl06_time_stored, 8, instr_time_is_stored::<4>(&OldeEclHooks { game: Game::Th07 }, Stored { param_mask: true, difficulty: true, extra_arg: false, pop_and_arg_count: false, maybe_terminal: false, ignore_param_mask: false }, |_| true));
+//@ C13 c13_tl06_time_stored quick default ECL timeline (TH06-07): if write_instr accepts an instruction, the time read back from the written bytes is the requested time, for every i32 time (a time that does not fit the field must be rejected, never stored differently)
+c03!(c13_tl06_time_stored, 8, instr_time_is_stored::<4>(&TimelineFormat06, Stored { param_mask: false, difficulty: false, extra_arg: true, pop_and_arg_count: false, maybe_terminal: false, ignore_param_mask: false }, |_| true));
+//@ C13 c13_tl08_time_stored quick default ECL timeline (TH08+): if write_instr accepts an instruction, the time read back from the written bytes is the requested time, for every i32 time (a time that does not fit the field must be rejected, never stored differently)
+c03!(c13_tl08_time_stored, 8, instr_time_is_stored::<4>(&TimelineFormat08, Stored { param_mask: false, difficulty: true, extra_arg: false, pop_and_arg_count: false, maybe_terminal: false, ignore_param_mask: false }, |_| true));
 
 #[cfg(kani)]
 #[path = "/verif/.cache/playback/ecl_06.rs"]
